@@ -23,4 +23,9 @@ class C41(E1Prop):
         return any(t in r.tags for t in self.nontrivial_tags)
 
 
+    def make_history(self, rng):
+        from ..batchdb import gen
+        return gen.history(rng, commit_modes=(0.3, 0.8), min_updates=2)
+
+
 PROP = C41()
